@@ -170,7 +170,7 @@ Lemma step_safe e rs o : regs_ok e rs -> wf_op o ->
 Proof.
   intros Hr Hw. unfold step.
   assert (Ill : regs_ok e rs /\ quiet [OutIll]) by (split; [exact Hr|apply quiet1; discriminate]).
-  destruct o as [r b f k|r b|r b f c|r b f r2|r r2|r d|r d|r d|r d|r d|r|r|r|r|w r|w r d]; cbn [wf_op] in Hw.
+  destruct o as [r b f k|r b|r b f c|r b f r2|r r2|r r2|r d|r d|r d|r d|r d|r|r|r|r|w r|w r d]; cbn [wf_op] in Hw.
   - apply (ctor_step e rs r (L0 k)); [exact Hr|apply h_new_ok; exact Hw].
   - apply (ctor_step e rs r (L0 key0)); [exact Hr|apply h_default_ok].
   - destruct Hw as [Hc Hb]. apply (ctor_step e rs r (decode c)); [exact Hr|apply h_restore_ok; assumption].
@@ -180,6 +180,9 @@ Proof.
     apply (ctor_step e rs r (decode (encode (habs h2)))); [exact Hr|].
     apply h_restore_ok; [apply encode_wb; exact Hbs|exact Hw].
   - destruct (lookup rs r2) as [h2|] eqn:El; [|exact Ill]. pose proof (Hr _ _ El) as HI.
+    rewrite h_clone_ok by exact HI. cbn [of_res]. split; [apply regs_ok_store; assumption|apply quiet1; discriminate].
+  - destruct (lookup rs r) as [h1|] eqn:E1; [|exact Ill]. destruct (lookup rs r2) as [h2|] eqn:El; [|exact Ill].
+    destruct (Nat.eqb r r2 || negb (same_type h1 h2)); [exact Ill|]. pose proof (Hr _ _ El) as HI.
     rewrite h_clone_ok by exact HI. cbn [of_res]. split; [apply regs_ok_store; assumption|apply quiet1; discriminate].
   - destruct (lookup rs r) as [h|] eqn:El; [|exact Ill]. pose proof (Hr _ _ El) as HI.
     destruct (h_append_ok e h d HI Hw) as (h' & E & I & _). rewrite E. cbn [of_res].
@@ -246,7 +249,7 @@ Qed.
    register never changes what another register holds *)
 Definition target (o : op) : list nat :=
   match o with
-  | ONew r _ _ _ | ODefault r _ | ORestore r _ _ _ | ORestoreFrom r _ _ _ | OClone r _
+  | ONew r _ _ _ | ODefault r _ | ORestore r _ _ _ | ORestoreFrom r _ _ _ | OClone r _ | OCloneFrom r _
   | OAppend r _ | OWrite r _ | OWriteAll r _ | OIoCopy r _ | OHWrite r _ | OFin _ r | OHash _ r _ => [r]
   | OFlush _ | OFinish _ | OCkpt _ | ODebug _ => []
   end.
@@ -266,6 +269,8 @@ Proof.
     repeat match goal with
     | |- context [lookup rs ?r] => destruct (lookup rs r) eqn:?; cbn [fst]; auto
     | |- context [h_checkpoint e ?h] => destruct (h_checkpoint e h); cbn [of_res fst]; auto
+    | |- context [if (Nat.eqb ?a ?b || negb (same_type ?x ?y))%bool then _ else _] =>
+        destruct (Nat.eqb a b || negb (same_type x y))%bool; cbn [fst]; auto
     | |- context [of_res rs ?x _] => destruct x; cbn [of_res fst]; auto
     end.
 Qed.
